@@ -92,10 +92,18 @@ def s_feed(draw):
         else:
             lens = _big_len()
         msgs.append(draw(_msg(streams[i], lens)))
-    every = draw(st.sampled_from([0, 0, 0, 1, 5, 64]) if size == "small" else st.sampled_from([0, 0, 0, 4096, 65536, 131072]))
     flip = draw(st.one_of(st.none(), st.none(),
                           st.tuples(st.just("s"), st.integers(0, 15), st.sampled_from(_FLIP_REGIONS),
                                     st.integers(0, 200000), st.integers(0, 7)).map(list)))
+    if size == "small":
+        every = draw(st.sampled_from([0, 0, 0, 1, 5, 64]))
+    elif flip is not None:
+        # after a checksum failure the driver walks through the rest of the *current read* in
+        # header-sized steps, copying the buffer each time (quadratic): keep the reads of corrupted
+        # big streams bounded so that a case stays cheap
+        every = draw(st.sampled_from([4096, 16384, 65536]))
+    else:
+        every = draw(st.sampled_from([0, 0, 0, 4096, 65536, 131072]))
     return {"version": draw(st.sampled_from([5, 5, 5, 6])), "compression": compression,
             "handshake": draw(st.sampled_from(["wire", "wire", "direct"])), "hs_cut": draw(st.sampled_from([0, 0, 1, 4])),
             "msgs": msgs, "group": draw(st.lists(st.integers(1, 4), max_size=4)),
@@ -105,7 +113,8 @@ def s_feed(draw):
 
 def s_encode():
     around = [k * MAXP + d for k in (1, 2, 3) for d in (-2, -1, 0, 1, 2)]
-    size = st.one_of(st.sampled_from(around), st.sampled_from(around), st.sampled_from([9, 10, 50]),
+    exact = [MAXP, MAXP, MAXP + 1, MAXP - 1, 2 * MAXP, 2 * MAXP + 1, 3 * MAXP]
+    size = st.one_of(st.sampled_from(exact), st.sampled_from(around), st.sampled_from([9, 10, 50]),
                      st.integers(9, 2000), st.integers(9, 400000))
     return st.fixed_dictionaries({
         "compression": st.booleans(), "via": st.sampled_from(["codec", "send_msg", "query"]),
@@ -249,6 +258,8 @@ def interpret_feed(case, ctx):
         orig = conn.process_msg
 
         def spy(header, body):
+            if len(seen) >= len(frames) + 4:
+                raise K.RunawayLoop("more than %d messages handed to process_msg, %d were sent" % (len(seen), len(frames)))
             seen.append((header.version, header.flags, header.stream, header.opcode, bytes(body)))
             seen_live.append(not conn.is_defunct)
             fed_at.append(pos[0])
@@ -285,9 +296,12 @@ def interpret_feed(case, ctx):
         for i, m in enumerate(case["msgs"]):
             conn._requests[m["stream"]] = (make_cb(i), decoder, ("meta", i))
         # after a checksum failure the (defunct) connection still walks through the rest of the
-        # read in header-sized steps, hence the total // 3 term; a loop that does not terminate
-        # exceeds any such budget
-        conn.step_budget = conn.steps + 6 * (len(cuts) + 1 + len(layout) + len(frames)) + total // 3 + 64
+        # current read in header-sized steps, hence the extra term for corrupted streams; a loop
+        # that does not terminate exceeds any such budget
+        edges = [0] + cuts + [total]
+        longest_read = max(b - a for a, b in zip(edges, edges[1:]))
+        conn.step_budget = conn.steps + 6 * (len(cuts) + 1 + len(layout) + len(frames)) + 64 + (
+            longest_read // 3 if flip is not None else 0)
         deferred = []
         ends_sorted = sorted(msg_end.values())
 
